@@ -44,6 +44,11 @@ CHECKS = {
    text="bound, mismatch_refused, disabled_ignored, refused_in_tunnel (0x800759DA, no dial), mint_records, clientAddr_xff / clientAddr_peer, same_rule_at_issue_and_use, default_on (regenerated defaults map) in Props/C04.lean. Tie: clientAddr vs the real EnrichContext on generated peers and X-Forwarded-For chains; tokens minted at address A and presented at address B through the real chain under both switch settings; tunnels over websocket and legacy presenting a token from the same / another address.",
    design="6/C04",
    note="TrimSpace is modelled for ASCII blanks plus U+0085/U+00A0; net.SplitHostPort for well-formed and a few malformed peers. Different spellings of one address are different addresses (refused: the safe side)."),
+ "C06": dict(
+   technique="Lean 4 theorems (stream parse of forward's packets by induction over reads; client→host exactness for any segmentation via the C08 refinement) + differential correspondence of the real forward/receive and of whole tunnels on both transports with concurrent traffic",
+   text="down_exact and down_wellformed (for any chunking of the host stream with reads ≤ forwardReadSize — regenerated from the Go source — the payloads the client parses concatenate to the host stream; every DATA packet ≤ 4096 with truthful length fields), receive_spec / receive_exact (min(declared, carried), never invented bytes), up_exact / up_exact_wellformed (any DATA packets under any segmentation: host receives exactly the concatenated payloads), interleave_intact (Props/C06.lean). Tie: VerifReceive and VerifForward over pipes compared with Body.receive / Resp.dataPacket; whole tunnels over websocket and legacy with both directions concurrently, sizes around 0/1/4085-4087/4096/8192/65535, random segmentation; both ends' bytes compared with what was sent.",
+   design="6/C06",
+   note="Write errors towards a dead client are ignored by the code (D20, C11's concern). The interleaving of the two writers is serialised by Tunnel.writeMu (C09); here it enters only through interleave_intact."),
 }
 
 def entry(pid, c):
